@@ -296,6 +296,25 @@ func init() {
 	add("C16", ruleR16_9)
 	add("C08", ruleR16_9)
 	add("C07", ruleR16_9)
+	// round 7: what the unseen changes of seeded7 showed
+	for _, id := range []string{"C15", "C01", "C02", "C04", "C05", "C09", "C10", "C19", "C03"} {
+		add(id, ruleR15_7)
+	}
+	add("C07", ruleR07_5)
+	add("C13", ruleR07_5)
+	add("C05", ruleR07_5)
+	add("C09", ruleR09_12)
+	add("C10", ruleR09_12)
+	add("C20", ruleR09_12)
+	add("C14", ruleR14_8)
+	add("C16", ruleR16_10, ruleR16_11)
+	add("C04", ruleR09_4)
+	add("C03", ruleR01_5)
+	add("C06", ruleR03_3, ruleR12_3)
+	add("C07", ruleR05_3, ruleR05_4)
+	add("C17", ruleR06_1full, ruleR19_5)
+	add("C18", ruleR05_5, ruleR06_1full)
+	add("C20", ruleR05_2)
 	for _, id := range []string{"C04", "C13"} {
 		registry[id].NeedsServer = registry[id].NeedsServer || id == "C13"
 	}
